@@ -59,6 +59,8 @@ type txnInfo struct {
 	begin, call, ret int // event indexes of markers (-1 if none)
 	committed        bool
 	state            *dbh.MDB // committed state after this transaction (if committed)
+	EngineTxnID      int32
+	Writes           int // statements of the transaction that changed at least one row
 }
 
 // Result of running the history (before any crash).
@@ -119,6 +121,7 @@ func Execute(h *History, st *Stats) (*Run, *vf.Failure) {
 		spec := &h.Txns[ti]
 		info := txnInfo{begin: run.Rec.Mark(fmt.Sprintf("begin %d", ti)), call: -1, ret: -1}
 		t := db.Begin()
+		info.EngineTxnID = int32(t.T.GetTransactionID())
 		work := cur.Clone()
 		engineAborted := false
 		for si := range spec.Stmts {
@@ -135,7 +138,9 @@ func Execute(h *History, st *Stats) (*Run, *vf.Failure) {
 				// statement refused without aborting: no effect
 				continue
 			}
-			work.Apply(s, dbh.EvalMode{})
+			if work.Apply(s, dbh.EvalMode{}) > 0 {
+				info.Writes++
+			}
 			noteWrites(run, before, work, s, false)
 			run.Rec.Mark("stmt-return")
 		}
